@@ -60,6 +60,7 @@ type Loaded struct {
 	noSummary       map[string]bool
 	bigMu           sync.Mutex
 	bigInits        map[*ssa.Package]*bigInitInfo
+	tryLockFields   map[string]bool // struct fields on which the repository calls TryLock/TryRLock
 }
 
 func (h *HarnessSpec) interceptFor(L *Loaded, name, oname string) *ssa.Function {
@@ -177,6 +178,7 @@ func loadProgram(repo, verifDir string, pkgDirs []string) (*Loaded, map[string]m
 	if rp := prog.ImportedPackage("runtime"); rp != nil {
 		L.runtimeErrorT = rp.Type("errorString").Type()
 	}
+	L.tryLockFields = scanTryLockFields(prog)
 	L.loadTime = time.Since(t0)
 	return L, intercepts, nil
 }
@@ -417,4 +419,57 @@ func readSpecs(verifDir string) (*Specs, error) {
 		}
 	}
 	return specs, nil
+}
+
+
+// mutexFieldKey names the struct field a mutex method is called on
+// ("<struct type>.<field>"), or "" when the receiver is not a field address.
+func mutexFieldKey(v ssa.Value) string {
+	fa, ok := v.(*ssa.FieldAddr)
+	if !ok {
+		return ""
+	}
+	pt, ok := fa.X.Type().Underlying().(*types.Pointer)
+	if !ok {
+		return ""
+	}
+	st, ok := pt.Elem().Underlying().(*types.Struct)
+	if !ok || fa.Field >= st.NumFields() {
+		return ""
+	}
+	return types.TypeString(pt.Elem(), nil) + "." + st.Field(fa.Field).Name()
+}
+
+// scanTryLockFields finds the mutex fields whose state the repository observes
+// with TryLock/TryRLock. A goroutine holding such a mutex can be seen holding
+// it, so the scheduler also offers a context switch right after it is acquired
+// (for mutexes that are only ever Lock()ed that interleaving is equivalent to
+// switching before the acquisition and is not explored).
+func scanTryLockFields(prog *ssa.Program) map[string]bool {
+	out := map[string]bool{}
+	for fn := range ssautil.AllFunctions(prog) {
+		if fn.Pkg == nil || !strings.HasPrefix(fn.Pkg.Pkg.Path(), repoModule) {
+			continue
+		}
+		for _, b := range fn.Blocks {
+			for _, in := range b.Instrs {
+				ci, ok := in.(ssa.CallInstruction)
+				if !ok {
+					continue
+				}
+				c := ci.Common()
+				callee := c.StaticCallee()
+				if callee == nil || len(c.Args) == 0 {
+					continue
+				}
+				switch callee.String() {
+				case "(*sync.Mutex).TryLock", "(*sync.RWMutex).TryLock", "(*sync.RWMutex).TryRLock":
+					if k := mutexFieldKey(c.Args[0]); k != "" {
+						out[k] = true
+					}
+				}
+			}
+		}
+	}
+	return out
 }
